@@ -16,10 +16,13 @@ pub mod c02;
 pub mod c03;
 pub mod c04;
 pub mod c05;
+pub mod c06;
+pub mod c07;
+pub mod c12;
 
 use runner::{Run, Sub};
 
-pub const PROPS: &[&str] = &["C01", "C02", "C03", "C04", "C05"];
+pub const PROPS: &[&str] = &["C01", "C02", "C03", "C04", "C05", "C06", "C07", "C12"];
 
 pub fn subs_of(prop: &str) -> Option<Vec<Sub>> {
     match prop {
@@ -28,6 +31,9 @@ pub fn subs_of(prop: &str) -> Option<Vec<Sub>> {
         "C03" => Some(c03::subs()),
         "C04" => Some(c04::subs()),
         "C05" => Some(c05::subs()),
+        "C06" => Some(c06::subs()),
+        "C07" => Some(c07::subs()),
+        "C12" => Some(c12::subs()),
         _ => None,
     }
 }
@@ -39,6 +45,9 @@ pub fn run_prop(run: &Run) -> bool {
         "C03" => c03::run(run),
         "C04" => c04::run(run),
         "C05" => c05::run(run),
+        "C06" => c06::run(run),
+        "C07" => c07::run(run),
+        "C12" => c12::run(run),
         _ => return false,
     }
     true
